@@ -6,6 +6,7 @@ import (
 	"sort"
 	"strconv"
 	"strings"
+	"time"
 
 	"verifmc/drv"
 	"verifmc/engine"
@@ -661,7 +662,9 @@ func listPlans(c *engine.Ctx, prop string) []listPlan {
 
 func runList(c *engine.Ctx, prop string) {
 	var foreign int64
-	for _, pl := range listPlans(c, prop) {
+	plans := listPlans(c, prop)
+	c.SpecBudget = c.Budget() / time.Duration(len(plans))
+	for _, pl := range plans {
 		pl := pl
 		name := prop + "/" + worldName(pl.cfg) + "/" + pl.u.name
 		if pl.versioned {
